@@ -195,6 +195,13 @@ func TestC11(t *testing.T) {
 		st.Eval()
 		f, accepted := checkC11(c)
 		if f != nil {
+			if c.Raw == nil {
+				c.Toks = gen.MinimizeToks(c.Toks, func(t []gen.Tok) bool {
+					ff, _ := checkC11(TokCase{Toks: t, DF: c.DF})
+					return ff != nil && ff.Sub == f.Sub
+				})
+				f, _ = checkC11(c)
+			}
 			c.Text = c.text()
 			st.Violate(stream, c, f)
 			return false
